@@ -300,7 +300,7 @@ func binomTwoSided(k, n int, p float64) float64 {
 
 func (c07) Run(t *testing.T, tape *core.Tape, rcx *RunCtx) *core.Result {
 	res := &core.Result{}
-	if rcx.Index%8 == 3 {
+	if core.Mix(uint64(rcx.Index), 0xc07)%8 == 3 { // one run in eight, spread evenly over the worker processes
 		return c07Proportion(t, tape, rcx, res)
 	}
 	sc := &c07Scenario{}
